@@ -4,6 +4,7 @@ import BU.Spec.CurveLaws
 import BU.Model.Sign
 import BU.Proofs.DerLemmas
 import BU.Proofs.EcdsaLemmas
+import BU.Proofs.CurveLawsFinal
 /-!
 # C06 — ECDSA input signatures are valid, strictly DER, low-S, low-R and deterministic
 
@@ -76,5 +77,12 @@ theorem lowS_preserves_validity (laws : CurveLaws) (d : Nat) (hd : 0 < d ∧ d <
 
 /-- non-vacuity: a concrete high-S pair is in the domain and gets flipped -/
 example : (normalise (derEncode 5 (n - 7)) 1).toOption = some (derEncode 5 7 ++ [1]) := by decide +kernel
+
+/-! ### without hypotheses: `CurveLaws` is proved (`BU/Proofs/CurveLawsFinal.lean`) -/
+
+theorem lowS_preserves_validity_unconditional (d : Nat) (hd : 0 < d ∧ d < n) (z r s : Nat)
+    (hs : 0 < s ∧ s < n) (hv : ecdsaVerify (mul G d) z r s = true) :
+    ecdsaVerify (mul G d) z r (n - s) = true :=
+  lowS_preserves_validity CurveLawsFinal.curveLaws d hd z r s hs hv
 
 end C06
